@@ -67,7 +67,7 @@ for d in sorted(_g.glob(os.path.join(ROOT, 'refactors', '*', 'result.json'))):
             al.append('%s (%s)' % (k, 'tie broken, no failing input' if nofail else 'FAILING INPUT REPORTED'))
     ref.append('| %s | %s | %s |' % (n, what.replace('|', '/'), ', '.join(al) or 'none'))
 txt += ('\n\n### 12a. Behaviour-preserving refactorings: which checks raise an alarm\n\n'
-        'Three sub-agents wrote twelve harmless refactorings (a thirteenth, `media-writer-join`, is mine: the media writer and the report lines of a medium rewritten, run against the two models added last) (front end / option writers; numerical core; geometry, topology, formatter), each with '
+        'Three sub-agents wrote twelve harmless refactorings (a thirteenth, `media-writer-join`, is mine: the media writer and the report lines of a medium rewritten, run against the two models added last; after the eighth round R2-3 and R3-2 were run again against C08, C12, C15, C17, C19: no alarm; R1-3 rewrites `Medium.as_cmdline` as it was before repair 9469538 and no longer applies) (front end / option writers; numerical core; geometry, topology, formatter), each with '
         'a differential test of its own; `bin/refrun <name> <diff>` applies one to `/repo`, runs the quick checks and restores `/repo`.  The table is '
         'the LAST run of each (after the translator fallback of §4.1 and the interprocedural walk of X19 were added; before them R2-1, R2-2, R2-4 broke '
         'the translator contract in C01, C02, C03, C07, C08, C10, C11, C14 and R1-1, R1-2, R1-4 the main-flow translator in C20 -- all as '
